@@ -92,6 +92,7 @@ def brew_cases(ctx, rng):
 
 
 def run(ctx):
+    ctx.liveness("Calib", unfair_control=not ctx.quick)      # termination under weak fairness (Calib_live.cfg)
     rng = np.random.default_rng(ctx.seed)
     ctx.phase("model_checking")
     ctx.model_check("Calib", "Calib_quick.cfg" if ctx.quick else "Calib_thorough.cfg",
